@@ -35,7 +35,7 @@ from ufl.form import BaseForm, Form
 from ufl.integral import Integral
 
 from .. import elements as E
-from ..c27_monitor import C27Canon, Monitor, dag_stats
+from ..c27_monitor import C27Canon, CallTimeout, Monitor, dag_stats
 from ..canon import canon_value
 from ..gen import Gen, Universe
 
@@ -964,11 +964,16 @@ def history_baseform(ctx, i, rng):
 
 def case(ctx, i, rng):
     r = i % 20
-    if r < 11:
-        history_form(ctx, i, rng)
-    elif r < 16:
-        history_expr(ctx, i, rng)
-    elif r < 18:
-        history_sensitivity(ctx, i, rng)
-    else:
-        history_baseform(ctx, i, rng)
+    try:
+        if r < 11:
+            history_form(ctx, i, rng)
+        elif r < 16:
+            history_expr(ctx, i, rng)
+        elif r < 18:
+            history_sensitivity(ctx, i, rng)
+        else:
+            history_baseform(ctx, i, rng)
+    except CallTimeout:
+        # a real call ran into the per-call time limit (expression blow-up inside UFL): nothing is
+        # decided for the interrupted call; the history ends here
+        ctx.count("histories_abandoned_after_call_timeout")
